@@ -158,6 +158,20 @@ func (f *frame) inline(site siteT, callee *ssa.Function, args []Val, bindings []
 	if n == 0 {
 		return Tuple{}
 	}
+	if call, ok := site.(*ssa.Call); ok && n == 1 {
+		var dt types.Type
+		same := true
+		for _, r := range g.rets {
+			if len(r.dyn) != 1 || r.dyn[0] == nil || (dt != nil && !types.Identical(dt, r.dyn[0])) {
+				same = false
+				break
+			}
+			dt = r.dyn[0]
+		}
+		if same && dt != nil {
+			f.dynType[call] = dt
+		}
+	}
 	res := make([]Val, n)
 	for i := 0; i < n; i++ {
 		var v Val
@@ -246,7 +260,7 @@ func paramNames(ct *Contract, sig *types.Signature, callee *ssa.Function) []stri
 		return ct.Params
 	}
 	var names []string
-	if callee != nil {
+	if callee != nil && len(callee.Params) > 0 {
 		for _, p := range callee.Params {
 			names = append(names, p.Name())
 		}
@@ -267,7 +281,7 @@ func paramNames(ct *Contract, sig *types.Signature, callee *ssa.Function) []stri
 
 func paramTypes(sig *types.Signature, callee *ssa.Function, nargs int, recvT types.Type) []types.Type {
 	var ts []types.Type
-	if callee != nil {
+	if callee != nil && len(callee.Params) > 0 {
 		for _, p := range callee.Params {
 			ts = append(ts, p.Type())
 		}
@@ -305,7 +319,9 @@ func bindResults(env *specEnv, f *frame, ct *Contract, sig *types.Signature, res
 		}
 		env.vars[fmt.Sprintf("r%d", i)] = sv
 		if len(res) == 1 {
-			env.vars["r"] = sv
+			if _, taken := env.vars["r"]; !taken {
+				env.vars["r"] = sv
+			}
 			env.vars["result"] = sv
 		}
 	}
@@ -345,13 +361,17 @@ func (f *frame) callByContract(site siteT, ct *Contract, key string, sig *types.
 	} else if obj != nil && obj.Pkg() != nil {
 		env.pkg = obj.Pkg()
 	}
+	var deferred []Let
 	for _, l := range ct.Lets {
-		env.vars[l.Name] = env.eval(l.E)
+		if v, ok := tryEval(env, l.E); ok {
+			env.vars[l.Name] = v
+		} else {
+			deferred = append(deferred, l)
+		}
 	}
 	caller := shortFn(c.fn)
 	for i, rq := range ct.Requires {
-		g := f.evalClause(env, rq)
-		c.oblige("callpre", fmt.Sprintf("%s#callpre:%s#%d.req%d", caller, shortKey(key), ord, i+1), f.guard, g, f.pos(pos), rq.Text)
+		g := f.obligeClause("callpre", fmt.Sprintf("%s#callpre:%s#%d.req%d", caller, shortKey(key), ord, i+1), env, rq, f.guard, f.pos(pos), false)
 		c.assume(implies(f.guard, g))
 	}
 	// frame
@@ -378,6 +398,9 @@ func (f *frame) callByContract(site siteT, ct *Contract, key string, sig *types.
 	post.old = pre
 	post.pkg = env.pkg
 	bindResults(post, f, ct, sig, res)
+	for _, l := range deferred {
+		post.vars[l.Name] = post.eval(l.E)
+	}
 	for _, en := range ct.Ensures {
 		g := f.evalClause(post, en)
 		c.assume(implies(f.guard, g))
@@ -440,8 +463,39 @@ func (f *frame) noteDynTypes(e Expr, env *specEnv, site siteT, res []Val) {
 			if t == nil || !isCall {
 				return
 			}
-			if len(res) == 1 && (id.Name == "r" || id.Name == "result" || id.Name == "r0") {
-				f.dynType[call] = t
+			if len(res) == 1 {
+				if rv, ok := env.vars[id.Name]; ok && rv.T.S == f.asTerm(res[0]).S {
+					f.dynType[call] = t
+				}
+			}
+		}
+	}
+}
+
+// noteParamTypes records `typeis(param, "T")` conjuncts of a precondition of the function
+// under verification.
+func (f *frame) noteParamTypes(e Expr, env *specEnv) {
+	switch x := e.(type) {
+	case *EBinary:
+		if x.Op == "&&" {
+			f.noteParamTypes(x.X, env)
+			f.noteParamTypes(x.Y, env)
+		}
+	case *ECall:
+		if x.Fun == "typeis" && len(x.Args) == 2 {
+			id, ok := x.Args[0].(*EIdent)
+			name, ok2 := x.Args[1].(*EStr)
+			if !ok || !ok2 {
+				return
+			}
+			t := f.c.eng.lookupType(env.pkg, name.V)
+			if t == nil {
+				return
+			}
+			for _, p := range f.fn.Params {
+				if p.Name() == id.Name {
+					f.dynType[p] = t
+				}
 			}
 		}
 	}
@@ -705,6 +759,9 @@ func (f *frame) builtinAppend(site siteT, cc *ssa.CallCommon, args []Val) Val {
 		srcAt = func(i Term) Term { return sel(sel(arr0, sBase(t)), add(sOff(t), i)) }
 	}
 	m = simplifyInt(m)
+	if k, ok := c.eng.constLen[t.S]; ok {
+		m = intLit(k)
+	}
 	arr := c.heapGet(f.heap, key, esort)
 	total := c.name("applen", simplifyInt(add(n, m)))
 	inplace := c.name("inplace", le(total, sCap(s)))
@@ -848,4 +905,19 @@ func (f *frame) knownExtern(site siteT, callee *ssa.Function, args []Val, pos to
 		return r, true
 	}
 	return nil, false
+}
+
+// tryEval evaluates a let at function entry; lets that mention results are deferred to the
+// post-state.
+func tryEval(env *specEnv, e Expr) (v SVal, ok bool) {
+	defer func() {
+		if r := recover(); r != nil {
+			if se, isSpec := r.(specErr); isSpec && strings.Contains(se.msg, "unknown identifier") {
+				ok = false
+				return
+			}
+			panic(r)
+		}
+	}()
+	return env.eval(e), true
 }
